@@ -392,7 +392,10 @@ def write_plumbing(check: Check) -> None:
                 cases += 1
                 events: list[Any] = []
                 vars_ = [MObj("InputVariable", {"name": f"in{i}"}) for i in range(n_inputs)]
-                engine = MObj("Engine", {"input_variables": vars_, "input_values": ("stale", "inputs"), "output_values": ("stale", "outputs"), "name": Opaque("name")})
+                out_ = MObj("OutputVariable", {"name": "out0"})
+                block_ = MObj("RuleBlock", {"name": "block", "rules": [MObj("Rule", {"index": 0}), MObj("Rule", {"index": 1})], "enabled": True})
+                engine = MObj("Engine", {"input_variables": vars_, "output_variables": [out_], "variables": vars_ + [out_], "rule_blocks": [block_],
+                                         "input_values": ("stale", "inputs"), "output_values": ("stale", "outputs"), "name": Opaque("name")})
                 table = MObj("Table", {"shape": ("rows", ncols), "ndim": 2, "__len__": 3})
                 exporter = MObj("FldExporter", {"input_values": fin, "output_values": fout, "headers": fhead, "separator": ("separator",)})
                 saved: dict[str, Any] = {}
@@ -419,7 +422,17 @@ def write_plumbing(check: Check) -> None:
                     events.append(("savetxt",))
                     return None
 
+                def other(name_):
+                    def f(ex_, e, recv, args, kw, events=events):
+                        if isinstance(recv, MObj) and recv.cls in ("Engine", "RuleBlock", "Rule", "InputVariable", "OutputVariable"):
+                            events.append((f"{recv.cls}.{name_}",))  # anything done to the engine besides restart / process shows in the sequence
+                            return None
+                        raise Unknown(f"{fn.qualname}: {name_}() on something that is not part of the model engine")
+                    return f
+
                 hooks = {"method:restart": restart, "method:process": process, "subscript": subscript, "method:savetxt": savetxt,
+                         "method:is_loaded": lambda ex_, e, recv, args, kw: True,
+                         **{f"method:{nm_}": other(nm_) for nm_ in ("load_rules", "reload_rules", "unload_rules", "clear", "load", "unload", "deactivate", "activate", "defuzzify")},
                          "method:atleast_2d": lambda ex_, e, recv, args, kw: args[0], "method:asarray": lambda ex_, e, recv, args, kw: args[0],
                          "method:hstack": lambda ex_, e, recv, args, kw: ("hstack", tuple(args[0])),
                          "method:column_stack": lambda ex_, e, recv, args, kw: ("hstack", tuple(args[0])),
